@@ -833,3 +833,13 @@ type GenericTypeIntegerUnsigned interface {
 type GenericTypeFloat interface {
 	float32 | float64
 }
+
+// containsCRLF reports whether s contains a carriage return or a line feed.
+func containsCRLF(s string) bool {
+	for i := 0; i < len(s); i++ {
+		if s[i] == '\r' || s[i] == '\n' {
+			return true
+		}
+	}
+	return false
+}
